@@ -187,6 +187,54 @@ pub fn same_within_cond(a: &Out, b: &Out, sa: &spec::Stats, sb: &spec::Stats, sc
     (None, skipped)
 }
 
+/// How the difference between two logged runs of one configuration develops over the state
+/// snapshots (hook H3): Some(first snapshot index at which it exceeds the noise floor) if the two
+/// logs correspond snapshot by snapshot and the difference *grows smoothly* - no snapshot shows
+/// more than `growth` times the largest difference seen before it (or the noise floor 1e-10,
+/// whichever is larger). None otherwise (a jump, or logs that do not correspond).
+///
+/// Purpose: a k-thread run adds rounding noise where the 1-thread run is exact (the regret of the
+/// action a pure strategy plays is exactly 0 in one summation order and 1e-13 in another). Dynamics
+/// that amplify differences by a factor of two or three per iteration (undamped regret matching:
+/// alpha = -1000) turn that into a macroscopic difference after fifty iterations although every
+/// single step of both runs is a correct update within rounding (which the step checker verifies
+/// separately). A defect - a lost update, a skipped node, a stale payoff - shows as a jump: a
+/// difference of the size of an increment appearing within one snapshot out of rounding noise.
+pub fn smooth_divergence(a: &Out, b: &Out, scale: f64, growth: f64) -> Option<usize> {
+    fn states(o: &Out) -> Vec<(u64, u8, u8, &Vec<verif::InfoState>)> {
+        o.events.iter().filter_map(|e| if let Event::State { pass, stage, player, infosets } = e { Some((*pass, *stage, *player, infosets)) } else { None }).collect()
+    }
+    let (sa, sb) = (states(a), states(b));
+    if sa.is_empty() || sa.len() != sb.len() {
+        return None;
+    }
+    let rel = |x: f64, y: f64, base: f64| (x - y).abs() / base.max(x.abs()).max(y.abs());
+    let mut seen = 0.0f64;
+    let mut first = None;
+    for (i, (x, y)) in sa.iter().zip(sb.iter()).enumerate() {
+        if (x.0, x.1, x.2) != (y.0, y.1, y.2) || x.3.len() != y.3.len() {
+            return None;
+        }
+        let mut d = 0.0f64;
+        for (u, v) in x.3.iter().zip(y.3.iter()) {
+            if u.cum_regret.len() != v.cum_regret.len() {
+                return None;
+            }
+            for k in 0..u.cum_regret.len() {
+                d = d.max(rel(u.cum_regret[k], v.cum_regret[k], scale.max(1e-300))).max((u.strat[k] - v.strat[k]).abs()).max(rel(u.cum_strat[k], v.cum_strat[k], 1.0));
+            }
+        }
+        if !(d <= (1e-10f64).max(growth * seen)) {
+            return None;
+        }
+        if d > 1e-10 && first.is_none() {
+            first = Some(i);
+        }
+        seen = seen.max(d);
+    }
+    first
+}
+
 /// per flat infoset of `prep`: the measured conditioning of its returned average strategy
 pub fn cond_by_flat_infoset(prep: &Prepared, st: &spec::Stats) -> [Vec<f64>; 2] {
     [0, 1].map(|p| (0..prep.flat.info_actions[p].len()).map(|i| prep.align.info_rev[p][i].and_then(|di| st.avg_cond[p].get(di).copied()).unwrap_or(1.0)).collect())
